@@ -48,6 +48,8 @@ MODELS = {
     # one call moves BOTH bounds of x (table look-up) while a cheaper constraint, already run, watches only one of them
     # (configuration selection: x_k = T_k[z], x1 + x2 + x3 <= c; fixing z moves both bounds of every x_k, nothing else wakes the sum)
     "config3": dict(doms=4, vars=[(0, 0), (1, 0), (2, 0), (3, 0)], props=[([1, 2, 3], "affine_leq", [1, 1, 1, S]), ([0, 1], "element_iv", [1, 0, 2]), ([0, 2], "element_iv", [1, 2, 0]), ([0, 3], "element_iv", [1, 0, 2])], base=0),
+    # thorough tier only: the same structure with SYMBOLIC tables (two look-ups), the solver picks the tables that matter
+    "config2_sym": dict(doms=3, vars=[(0, 0), (1, 0), (2, 0)], props=[([1, 2], "affine_leq", [1, 1, S]), ([0, 1], "element_iv", [S, S, S]), ([0, 2], "element_iv", [S, S, S])], base=0, thorough_only=True),
     "config3_geq": dict(doms=4, vars=[(0, 0), (1, 0), (2, 0), (3, 0)], props=[([1, 2, 3], "affine_geq", [1, 1, 1, S]), ([0, 1], "element_iv", [1, 0, 2]), ([0, 2], "element_iv", [1, 2, 0]), ([0, 3], "element_iv", [1, 0, 2])], base=0),
     # restart scenarios of optimize(): the first branch of the first decision is refuted (x + u >= s1 and u - x <= s2 are each
     # bound-consistent at the root), constraints become entailed at the restricted level 0, a solution is found, the next
